@@ -675,6 +675,8 @@ type c13Driver struct {
 
 	reuses, midInserts, midDetaches, frees int
 	lookFound, lookNotFound                int
+
+	tracked []c13Query // lookups repeated after every step
 }
 
 func (d *c13Driver) note(format string, a ...interface{}) {
@@ -1347,6 +1349,59 @@ func (d *c13Driver) lookups(nExpr int) bool {
 	return true
 }
 
+// c13Query is a lookup that is repeated after every editing step: the same (scope, expression) pair straddles
+// appends, inserts, detaches and frees, so an answer remembered from the previous call shows up as a wrong node.
+type c13Query struct {
+	scope uint32
+	expr  []byte
+}
+
+// requery re-evaluates the tracked queries (dropping those whose scope died) and keeps their number at four.
+func (d *c13Driver) requery() bool {
+	r := d.r
+	kept := d.tracked[:0]
+	for _, q := range d.tracked {
+		if d.m.isLive(q.scope) && !r.Chance(1, 12) {
+			kept = append(kept, q)
+		}
+	}
+	d.tracked = kept
+	live := d.liveSlots()
+	for len(d.tracked) < 4 && len(live) > 0 {
+		q := c13Query{scope: live[r.Intn(len(live))]}
+		if r.Chance(2, 3) {
+			n := d.someName() // a single name segment: the search rules apply
+			q.expr = append([]byte(nil), n[:]...)
+		} else {
+			q.expr = d.genExpr(3)
+		}
+		d.tracked = append(d.tracked, q)
+	}
+	for _, q := range d.tracked {
+		p, acc, _ := d.m.c13Resolve(q.scope, q.expr)
+		var got uint32
+		arg := append([]byte(nil), q.expr...)
+		if pv, st := vlib.Protect(func() { got = d.tree.Find(q.scope, arg) }); pv != nil {
+			d.bad = true
+			d.c.Violation("find-panic:"+vlib.PanicSite(st)+":"+vlib.PanicClass(pv), map[string]interface{}{"scope": q.scope, "expr": vlib.Hex(q.expr), "panic": fmt.Sprint(pv), "stack": st, "last_ops": d.tail()})
+			return false
+		}
+		d.run.Count("find_repeated_queries", 1)
+		if got != InvalidIndex && !d.m.isLive(got) {
+			d.findViolation(p, "repeated:returned-dead-slot", q.scope, q.expr, got, acc)
+			return false
+		}
+		if p.class == c13ClassJunk {
+			continue
+		}
+		if !c13In(acc, got) {
+			d.findViolation(p, "repeated:wrong-answer-after-an-edit", q.scope, q.expr, got, acc)
+			return false
+		}
+	}
+	return true
+}
+
 func c13I32(v []uint32) []int32 {
 	out := make([]int32, len(v))
 	for i, x := range v {
@@ -1481,6 +1536,9 @@ func TestVerifC13(t *testing.T) {
 				mode = r.Intn(3)
 			}
 			if !d.step(mode, maxLive) {
+				return
+			}
+			if !d.requery() {
 				return
 			}
 			if s == nextLookup {
